@@ -92,6 +92,9 @@ def index_forms(r, n):
     forms.append(('slice', slice(0, n, 1), f'catsel {n} slice 0 {n} 1'))
     ints = [r.randrange(-n, n) for _ in range(r.randint(1, 4))]
     forms.append(('ints', ints, f'catsel {n} ints ' + ','.join(map(str, ints))))
+    perm = list(range(n))
+    r.shuffle(perm)                                  # every source, in another order (a child as long as its parent)
+    forms.append(('ints', perm, f'catsel {n} ints ' + ','.join(map(str, perm))))
     m = [r.random() < 0.5 for _ in range(n)]
     if not any(m):
         m[0] = True
